@@ -92,6 +92,8 @@ pub struct Model {
     pub anns: Vec<Option<MAnn>>,
     /// every public id ever used: (kind letter, set id or "", id)
     pub ever_ids: BTreeSet<(char, String, String)>,
+    /// ids of the sub-stores, by handle (only stores made outside the history alphabet have any)
+    pub subs: Vec<String>,
 }
 
 #[derive(Debug, Clone, PartialEq, Eq)]
